@@ -16,6 +16,7 @@ import os
 from typing import Dict, List, Optional, Set, Tuple
 
 from .. import astutil as A
+from .. import guards as G
 from .. import instrs as I
 from ..model import AnalysisError, EnumMember, NamedTupleType, Unknown, dotted, src
 
@@ -133,6 +134,18 @@ def check_serialize(ctx):
                 exp = [f"{pp}.{slot}"]
             ctx.check("C11.S", f"serialize_request:{slot}", v in exp, f"slot `{slot}` of the argument array is filled with `{src(st.value)}`; expected `{exp[0]}`", repo.loc(m, st),
                       sample={"slot": slot, "source": src(st.value)})
+            # the write may depend on the request type and on its own field only (elif arms count with the negated earlier tests)
+            own = {"type": set(), "time_unit": {"time_unit", "max_time"}}.get(slot)
+            if own is None:
+                own = {f"rotations_{'local' if 'local' in slot else 'remote'}"} if slot.startswith("rotation_") else {slot}
+            others = set()
+            for t, pol in G.enclosing_tests(fn, st):
+                for x in ast.walk(t):
+                    if isinstance(x, ast.Attribute) and isinstance(x.value, ast.Name) and x.value.id == pp and x.attr not in own:
+                        others.add(x.attr)
+            ctx.check("C11.S", f"serialize_request:{slot}:written-whenever-its-own-field-is-set", not others,
+                      f"slot `{slot}` is written only under a condition on other request fields ({', '.join(sorted(others))}): for some combinations of arguments the field never reaches the array "
+                      "and the network stack sees its default instead", repo.loc(m, st), sample={"slot": slot, "guard_fields": sorted(own)})
     ctx.anchor("C11.S", "slot assignments in serialize_request", n, 12)
     # array length
     d = A.single_defs(fn)
@@ -470,6 +483,11 @@ XF = "netqasm/backend/executor.py"
 ESF = "netqasm/sdk/epr_socket.py"
 BF = "netqasm/sdk/builder.py"
 SEEDS = [
+    dict(id="c11-rotation-under-elif-of-random-basis", file="netqasm/sdk/build_epr.py", expect="C11.S", construct="written-whenever-its-own-field-is-set",
+         old="        if params.rotations_remote != (0, 0, 0):\n", new="        if params.random_basis_remote:\n            pass\n        elif params.rotations_remote != (0, 0, 0):\n"),
+    dict(id="c11-max-time-only-for-keep", file="netqasm/sdk/build_epr.py", expect="C11.S", construct="written-whenever-its-own-field-is-set",
+         old="    if params.max_time != 0:\n", new="    if params.max_time != 0 and params.number > 0:\n"),
+
     dict(id="c11-swap-ser", file=BEF, expect="C11.I", construct="SER_CREATE_IDX_TIME_UNIT", old="SER_CREATE_IDX_TIME_UNIT = 5\nSER_CREATE_IDX_MAX_TIME = 6", new="SER_CREATE_IDX_TIME_UNIT = 6\nSER_CREATE_IDX_MAX_TIME = 5"),
     dict(id="c11-resp-idx", file=BEF, expect="C11.I", construct="SER_RESPONSE_MEASURE_IDX_GOODNESS", old="SER_RESPONSE_MEASURE_IDX_GOODNESS = 8", new="SER_RESPONSE_MEASURE_IDX_GOODNESS = 7"),
     dict(id="c11-tuple-field-moved", file="netqasm/qlink_compat.py", expect="C11.I", construct="SER_RESPONSE_KEEP_IDX", old='        "goodness",\n        "goodness_time",\n        "bell_state",\n    ],\n)\nLinkLayerOKTypeK.__new__', new='        "goodness_time",\n        "goodness",\n        "bell_state",\n    ],\n)\nLinkLayerOKTypeK.__new__'),
@@ -489,4 +507,9 @@ SEEDS = [
     dict(id="c11-enum-renumber", file="netqasm/qlink_compat.py", expect="C11.E", construct="RandomBasis", old="class RandomBasis(Enum):\n    NONE = 0\n    XZ = auto()\n    XYZ = auto()", new="class RandomBasis(Enum):\n    NONE = 0\n    XYZ = auto()\n    XZ = auto()"),
     dict(id="c11-enum-lowering", file=XF, expect="C11.R", construct="_store_ent_info", old="            entry.value if isinstance(entry, Enum) else entry for entry in response", new="            entry for entry in response"),
 ]
-BENIGN = []
+BENIGN = [
+    dict(id="c11-benign-random-basis-written-first", edits=[
+        ("netqasm/sdk/build_epr.py", "        if params.random_basis_local:\n            array[SER_CREATE_IDX_RANDOM_BASIS_LOCAL] = params.random_basis_local.value\n", ""),
+        ("netqasm/sdk/build_epr.py", "        # Only write when non-zero.\n", "        if params.random_basis_local:\n            array[SER_CREATE_IDX_RANDOM_BASIS_LOCAL] = params.random_basis_local.value\n"),
+    ]),
+]
